@@ -9,8 +9,10 @@
 (***************************************************************************)
 EXTENDS JsSyntax, Json, SequencesExt
 
-CONSTANTS Family,   \* "expr" | "spine" | "skel" | "grow"
+CONSTANTS Family,   \* "expr" | "spine" | "mix" | "skel" | "rand"
           Size,     \* family-specific bound (depth / spine length)
+          Keep,     \* 1 = every enumerated case; n > 1 = the fixed (covering) part and every n-th case of the bulk part
+          Seed,     \* offset of the n-th-case slices (VERIF_SEED)
           NParts,   \* number of slices (parallelism of the export inside one TLC)
           Shard, NShards  \* this TLC process enumerates shard Shard of 0..NShards-1 (several JVMs in parallel)
 
@@ -48,6 +50,11 @@ Ops2(x, y) ==
 
 OK(t) == WellFormed(t) /\ FnKindOK(t, FALSE)
 
+(* Seeded slices of the bulk sets (everything when Keep = 1).  The slice is cut by arithmetic on the POSITIONS of  *)
+(* the components (tree, skeleton, operator) in their fixed orders, so the product is never built; the multipliers  *)
+(* are primes larger than any Keep, so every component value occurs in the slice with the same frequency.            *)
+Hit(i, j, k) == (i * 7919 + j * 104729 + k * 611953 + Seed) % Keep = 0
+
 Mk1(X) == {t \in UNION {Ops1(x) : x \in X} : OK(t)}
 Mk2(X, W) == {t \in UNION {Ops2(x, w) : x \in X, w \in W} : OK(t)}
 
@@ -72,8 +79,14 @@ Core(p) == {t \in T1(p) :
 T2(p, full) ==
   LET A == IF full THEN T1(p \o "0") ELSE Core(p \o "0")
       B == IF full THEN T1(p \o "1") ELSE Core(p \o "1") IN
-  LET AS == SetToSeq(A) As == {AS[i] : i \in {j \in 1..Len(AS) : j % NShards = Shard}} IN
-  Mk1(As) \cup Mk2(As, B)
+  LET AS == SetToSeq(A) BS == SetToSeq(B)
+      Mine == {j \in 1..Len(AS) : j % NShards = Shard}
+      As == {AS[i] : i \in Mine} IN
+  IF Keep = 1 THEN Mk1(As) \cup Mk2(As, B)
+  ELSE \* the seeded slice over (left child, right child, operator) positions
+       {t \in UNION {LET O == SetToSeq(Ops2(AS[q[1]], BS[q[2]])) IN {O[k] : k \in {n \in 1..Len(O) : Hit(q[1], q[2], n)}}
+                      : q \in Mine \X (1..Len(BS))} : OK(t)}
+       \cup {t \in UNION {LET O == SetToSeq(Ops1(AS[i])) IN {O[k] : k \in {n \in 1..Len(O) : Hit(i, 0, n)}} : i \in Mine} : OK(t)}
 
 (***************************************************************************)
 (* Spines: a hazard leaf at the far left (right) end of a chain of          *)
@@ -86,7 +99,42 @@ RightOps(x) ==
   {<<"bin", "+", Y, x>>, <<"bin", "||", Y, x>>, <<"un", "!", x>>, <<"asg", "=", Y, x>>,
    <<"cond", Y, Z, x>>, <<"seq", Y, x>>, <<"arrow", "-", x>>, <<"new", Y, x>>, <<"idx", Y, x, "no">>}
 
-RECURSIVE LeftSpine(_, _), RightSpine(_, _)
+(* every operator class that keeps its first operand at the left edge (the start restrictions travel down this edge) *)
+LeftOpsX(x) ==
+  LeftOps(x) \cup
+  {<<"call", x, Y, "start">>, <<"idx", x, Y, "start">>, <<"callsp", x, Y>>, <<"upd", "++", "post", x>>,
+   <<"bin", "**", x, Y>>, <<"bin", "??", x, Y>>, <<"bin", "||", x, Y>>, <<"bin", "in", x, Y>>, <<"bin", "instanceof", x, Y>>,
+   <<"bin", "<", x, Y>>, <<"bin", "/", x, Y>>, <<"asg", "+=", x, Y>>, <<"asg", "??=", x, Y>>}
+
+(* Forwarding operators: one per operator class and operand position through which a restriction of the    *)
+(* enclosing position ([~In] of a for-init, the start restrictions, the level) can reach an operand, plus   *)
+(* the bracketing ones that must stop it.  core = the classes used for the exhaustive two-level chains.      *)
+FwdCore(x) ==
+  {<<"seq", x, Y>>, <<"seq", Y, x>>, <<"asg", "=", Y, x>>, <<"cond", x, Y, Z>>, <<"cond", Y, x, Z>>, <<"cond", Y, Z, x>>,
+   <<"bin", "+", x, Y>>, <<"bin", "+", Y, x>>, <<"bin", "||", Y, x>>, <<"bin", "<", x, Y>>, <<"un", "!", x>>,
+   <<"arrow", "-", x>>, <<"call", Y, x, "no">>, <<"idx", x, Y, "no">>}
+FwdOps(x) ==
+  FwdCore(x) \cup
+  {<<"asg", "??=", Y, x>>, <<"asg", "+=", Y, x>>,
+   <<"bin", "||", x, Y>>, <<"bin", "&&", x, Y>>, <<"bin", "&&", Y, x>>, <<"bin", "??", x, Y>>, <<"bin", "??", Y, x>>,
+   <<"bin", "**", x, Y>>, <<"bin", "**", Y, x>>, <<"bin", "<", Y, x>>, <<"bin", "in", x, Y>>, <<"bin", "in", Y, x>>,
+   <<"bin", "==", x, Y>>, <<"bin", "|", Y, x>>,
+   <<"un", "typeof", x>>, <<"un", "-", x>>, <<"un", "void", x>>, <<"await", x>>, <<"yield", x>>, <<"yield*", x>>,
+   <<"arrow", "a", x>>, <<"new0", x>>, <<"new", x, Y>>, <<"new", Y, x>>,
+   <<"call", x, Y, "no">>, <<"call", x, Y, "start">>, <<"callsp", Y, x>>,
+   <<"dot", x, "m", "no">>, <<"dot", x, "m", "start">>, <<"idx", Y, x, "no">>, <<"idx", x, Y, "start">>, <<"idx", Y, x, "start">>,
+   <<"tag", x>>, <<"obj", x>>, <<"arr", x>>, <<"sparr", x>>, <<"upd", "++", "post", x>>, <<"upd", "--", "pre", x>>}
+
+RECURSIVE Mix(_, _, _)
+Mix(X, core, k) == IF k = 0 THEN X ELSE
+  LET S == Mix(X, core, k - 1) IN
+  S \cup {t \in UNION {IF core THEN FwdCore(s) ELSE FwdOps(s) : s \in S} : OK(t)}
+(* exactly k operators: the chains of Mix(X, core, k) that are not already in Mix(X, core, k - 1) *)
+MixNew(X, core, k) == Mix(X, core, k) \ Mix(X, core, k - 1)
+
+RECURSIVE LeftSpine(_, _), RightSpine(_, _), LeftSpineX(_, _)
+LeftSpineX(X, k) == IF k = 0 THEN X ELSE
+  LET S == LeftSpineX(X, k - 1) IN S \cup {t \in UNION {LeftOpsX(s) : s \in S} : OK(t)}
 LeftSpine(X, k) == IF k = 0 THEN X ELSE
   LET S == LeftSpine(X, k - 1) IN S \cup {t \in UNION {LeftOps(s) : s \in S} : OK(t)}
 RightSpine(X, k) == IF k = 0 THEN X ELSE
@@ -101,6 +149,10 @@ RandTree(d, p) ==
        IN RandomElement(Ops1(x) \cup Ops2(x, y))
 RandTrees(n) == {t \in {RandTree(3, "a") : i \in 1..n} : OK(t) /\ Depth(t) >= 2}
 
+SkelCore == {Id("a"), <<"seq", Id("a0"), Id("a1")>>, <<"asg", "=", Id("a0"), Id("a1")>>, <<"arrow", "-", Id("a")>>,
+             <<"bin", "in", Id("a0"), Id("a1")>>, <<"cond", Id("a0"), Id("a1"), Z>>, <<"bin", "+", Id("a0"), Id("a1")>>, <<"un", "!", Id("a")>>,
+             <<"obj0">>, <<"fn">>, <<"cls">>, <<"id", "let">>, <<"id", "async">>, <<"yield", Id("a")>>}
+
 (* hazard leaf -> the skeletons whose start restriction concerns it *)
 StartPairs ==
   {<<x, n>> : x \in {<<"obj0">>, <<"obj", Id("a")>>}, n \in {"exprstmt", "arrowbody", "label"}}
@@ -109,6 +161,11 @@ StartPairs ==
   \cup {<<x, n>> : x \in {<<"id", "async">>}, n \in {"forof_lhs", "exprstmt"}}
   \cup {<<x, n>> : x \in {<<"num", "1">>, <<"re">>}, n \in {"exprstmt"}}
 InLeaves == {<<"bin", "in", Id("a"), Id("b")>>}
+MixStartPairs ==
+  {<<x, n>> : x \in {<<"obj0">>}, n \in {"exprstmt", "arrowbody"}}
+  \cup {<<x, n>> : x \in {<<"fn">>, <<"cls">>}, n \in {"exprstmt", "exportdefault"}}
+  \cup {<<x, n>> : x \in {<<"idx", <<"id", "let">>, Y, "no">>}, n \in {"exprstmt", "forinit"}}
+  \cup {<<<<"id", "async">>, "forof_lhs">>, <<<<"id", "let">>, "forof_lhs">>}
 
 (* prefix chains for the +/- gluing hazards *)
 PrefixOps(x) == {<<"un", "-", x>>, <<"un", "+", x>>, <<"un", "!", x>>, <<"un", "typeof", x>>,
@@ -135,7 +192,7 @@ LinkChain(X, k) == IF k = 0 THEN X ELSE
 (* hole, the S-expression around it, the goal.                             *)
 (***************************************************************************)
 Sk(pre, post, ctx, sa, sb, goal) == [pre |-> pre, post |-> post, ctx |-> ctx, sa |-> sa, sb |-> sb, goal |-> goal]
-SkelNames == {"exprstmt", "if", "while", "dowhile", "switch", "case", "forinit", "forvarinit", "forletinit", "fortest", "forupdate",
+SkelNames == {"exprstmt", "if", "while", "dowhile", "switch", "case", "forinit", "forvarinit", "forletinit", "forconstinit", "forvarinit2", "fortest", "forupdate",
               "forin_lhs", "forin_rhs", "forof_lhs", "forof_rhs", "return", "throw", "var", "let", "const",
               "exportdefault", "exportconst", "classfield", "classcomputed", "classextends", "label", "tplhole",
               "computedkey", "defaultparam", "arrowdefault", "import", "with", "ifelse", "arrowbody"}
@@ -150,6 +207,8 @@ Skel(n) ==
     [] n = "forinit" -> Sk(<<"for", "(">>, <<";", ";", ")", "break", ";">>, TopCtx(LComma, TRUE, "forinit"), "(prog (for ", " - - (break -)))", "any")
     [] n = "forvarinit" -> Sk(<<"for", "(", "var", "v", "=">>, <<";", ";", ")", "break", ";">>, TopCtx(LAssign, TRUE, "none"), "(prog (for (var (decl (id v) ", ")) - - (break -)))", "any")
     [] n = "forletinit" -> Sk(<<"for", "(", "let", "v", "=">>, <<";", ";", ")", "break", ";">>, TopCtx(LAssign, TRUE, "none"), "(prog (for (let (decl (id v) ", ")) - - (break -)))", "any")
+    [] n = "forconstinit" -> Sk(<<"for", "(", "const", "v", "=">>, <<";", ";", ")", "break", ";">>, TopCtx(LAssign, TRUE, "none"), "(prog (for (const (decl (id v) ", ")) - - (break -)))", "any")
+    [] n = "forvarinit2" -> Sk(<<"for", "(", "var", "u", "=", "1", ",", "v", "=">>, <<";", ";", ")", "break", ";">>, TopCtx(LAssign, TRUE, "none"), "(prog (for (var (decl (id u) (num 1)) (decl (id v) ", ")) - - (break -)))", "any")
     [] n = "fortest" -> Sk(<<"for", "(", ";">>, <<";", ")", "break", ";">>, InnerCtx(LComma), "(prog (for - ", " - (break -)))", "any")
     [] n = "forupdate" -> Sk(<<"for", "(", ";", ";">>, <<")", "break", ";">>, InnerCtx(LComma), "(prog (for - - ", " (break -)))", "any")
     [] n = "forin_lhs" -> Sk(<<"for", "(">>, <<"in", "y", ")", ";">>, TopCtx(LLhs, FALSE, "forin"), "(prog (forin ", " (id y) (empty)))", "any")
@@ -200,10 +259,14 @@ WrapSb(w) == CASE w = "-" -> ""
                [] w = "a" -> ")) (expr (call (id w)))"
                [] w = "ag" -> ")) (expr (call (dot (call (id w)) next)))"
 
+(* skeletons that may be placed inside the generator / async function a yield / await in the tree demands *)
+ForInitSkels == {"forinit", "forvarinit", "forletinit", "forconstinit", "forvarinit2"}
+WrapSkels == {"exprstmt"} \cup ForInitSkels
+
 (* trees admissible in a skeleton *)
 Admissible(t, n) ==
   /\ (n \in {"forin_lhs", "forof_lhs"}) => IsSimpleTarget(t)
-  /\ (n # "exprstmt") => WrapKind(t) = "-"
+  /\ (n \notin WrapSkels) => WrapKind(t) = "-"
   /\ (n = "exprstmt") => Kind(t) # "str"          \* a bare string statement is a directive
   /\ (n = "label") => Kind(t) # "str"
   /\ (n = "ifelse") => Kind(t) # "str"
@@ -213,6 +276,10 @@ Admissible(t, n) ==
 (* The case sets.                                                          *)
 (***************************************************************************)
 On(S, names) == {[t |-> t, sk |-> n] : t \in S, n \in names}
+SampleOn(S, names) ==
+  IF Keep = 1 THEN On(S, names)
+  ELSE LET T == SetToSeq(S) N == SetToSeq(names) IN
+       {[t |-> T[q[1]], sk |-> N[q[2]]] : q \in {x \in (1..Len(T)) \X (1..Len(N)) : Hit(x[1], x[2], 0)}}
 Adm(C) == {c \in C : Admissible(c.t, c.sk)}
 
 (* (an operator WITH a parameter: TLC evaluates zero-arity constant definitions eagerly *)
@@ -220,17 +287,33 @@ Adm(C) == {c \in C : Admissible(c.t, c.sk)}
 CasesOf(Family_) ==
   CASE Family = "expr" ->
          \* Size 1: depth <= 1 incl. special leaves; 2: depth <= 2 reduced children; 3: depth <= 2 full children
+         \* fixed: depth <= 1 (shard 0); bulk: depth 2
          Adm(On((IF Shard = 0 THEN T1("a") \cup T1s("a") ELSE {}) \cup (IF Size >= 2 THEN T2("a", Size >= 3) ELSE {}), {"exprstmt"}))
     [] Family = "spine" ->
-         Adm(UNION {On(LeftSpine({pr[1]}, Size), {pr[2]}) : pr \in StartPairs}
-             \cup On(RightSpine(InLeaves, Size), {"forinit", "forvarinit", "forletinit", "exprstmt"})
-             \cup On(GlueTrees(Size), {"exprstmt"})
-             \cup On(LinkChain({Id("a")}, Size), {"exprstmt"}))
+         \* fixed: the start-restricted leaves under every single left-edge operator (and the classic ones to Size - 1), the gluing
+         \* families one level shorter plus all prefix-operator chains and `a < !--b`, all link chains; bulk: everything at full length
+         Adm(UNION {On(LeftSpine({pr[1]}, Size - 1) \cup LeftSpineX({pr[1]}, 1), {pr[2]}) : pr \in StartPairs}
+             \cup On(GlueTrees(Size - 1) \cup PrefixChain({Id("b"), <<"re">>, <<"num", "1">>}, Size)
+                     \cup {<<"bin", "<", Id("a"), <<"un", "!", <<"upd", "--", "pre", Id("b")>>>>>>}, {"exprstmt"})
+             \cup On(LinkChain({Id("a")}, Size), {"exprstmt"})
+             \cup UNION {SampleOn(LeftSpineX({pr[1]}, Size), {pr[2]}) : pr \in StartPairs}
+             \cup SampleOn(GlueTrees(Size), {"exprstmt"}))
+    [] Family = "mix" ->
+         \* the `in` leaf under chains of forwarding operators in every kind of for-init (and as a plain statement: no
+         \* parentheses may be lost or invented there); the start-restricted leaves under the same chains.
+         \* fixed: every chain of <= 1 operator, every chain of 2 core operators; bulk: up to Size operators of all classes
+         Adm(On(Mix(InLeaves, FALSE, 1), ForInitSkels \cup {"exprstmt"})
+             \cup On(Mix(InLeaves, TRUE, 2), {"forinit", "forletinit"})
+             \cup UNION {On(Mix({pr[1]}, FALSE, 1), {pr[2]}) : pr \in MixStartPairs}
+             \cup SampleOn(Mix(InLeaves, FALSE, 2) \cup (IF Size >= 3 THEN Mix(InLeaves, TRUE, 3) ELSE {}), ForInitSkels \cup {"exprstmt", "forin_rhs", "arrowbody"})
+             \cup UNION {SampleOn(Mix({pr[1]}, FALSE, 2), {pr[2]}) : pr \in MixStartPairs})
     [] Family = "rand" -> Adm(On(RandTrees(Size), {"exprstmt"}))
     [] Family = "skel" ->
-         Adm(On(T1("a") \cup SpecialLeaves \cup (IF Size >= 2 THEN Mk1(SpecialLeaves) ELSE {}), SkelNames))
+         \* fixed: one tree per level class and restricted leaf in every skeleton; bulk: all depth <= 1 trees
+         Adm(On(SkelCore, SkelNames)
+             \cup SampleOn(T1("a") \cup SpecialLeaves \cup (IF Size >= 2 THEN Mk1(SpecialLeaves) ELSE {}), SkelNames))
 
-ASSUME Family \in {"expr", "spine", "skel", "rand"}
+ASSUME Family \in {"expr", "spine", "mix", "skel", "rand"}
 
 CaseCtx(c) == Skel(c.sk).ctx
 Toks(c, body) ==
@@ -238,7 +321,9 @@ Toks(c, body) ==
 CaseSexp(c) ==
   LET w == WrapKind(c.t) s == Skel(c.sk) IN
   IF w = "-" THEN s.sa \o Sexp(c.t) \o s.sb
-  ELSE "(prog " \o WrapSa(w) \o "(expr " \o Sexp(c.t) \o ")" \o WrapSb(w) \o ")"
+  ELSE IF c.sk = "exprstmt" THEN "(prog " \o WrapSa(w) \o "(expr " \o Sexp(c.t) \o ")" \o WrapSb(w) \o ")"
+  \* s.sa = "(prog " \o statement prefix, s.sb = statement suffix \o ")": the statement moves into the wrapper's body
+  ELSE "(prog " \o WrapSa(w) \o SubSeq(s.sa, 7, Len(s.sa)) \o Sexp(c.t) \o SubSeq(s.sb, 1, Len(s.sb) - 1) \o WrapSb(w) \o ")"
 
 (* everything that is computed once per case: the two renderings and the labels *)
 Prep(c) ==
@@ -284,6 +369,7 @@ ShardSeq(S) == IF NShards = 1 \/ Family = "expr" THEN S
 ASSUME TLCSet(1, LET S == ShardSeq(SetToSeq(CasesOf(Family))) IN [i \in 1..Len(S) |-> Prep(S[i])])
 ASSUME TLCSet(2, LET S == TLCGet(1) IN UNION {S[i].labels : i \in 1..Len(S)})
 ASSUME PrintT(<<"NCASES", Len(TLCGet(1))>>)
+ASSUME PrintT(<<"LABELS", ToJson(TLCGet(2))>>)
 Init == cs = 0 /\ done = "no"
 Fan == cs = 0 /\ cs' \in 1..NParts /\ done' = done
 Work == /\ cs > 0 /\ done = "no"
@@ -301,16 +387,19 @@ Required ==
   CASE Family = "expr" ->
          {"start-brace", "start-function", "start-async-function", "start-class",
           "glue-keyword-ident", "glue-ident-keyword", "glue-div-regexp", "glue-regexp-keyword", "glue-num-dot"}
-         \cup (IF Size >= 2 THEN {"paren-comma", "paren-assign", "paren-arrow", "paren-yield", "paren-cond", "paren-binary",
+         \cup (IF Size >= 2 /\ Keep = 1 THEN {"paren-comma", "paren-assign", "paren-arrow", "paren-yield", "paren-cond", "paren-binary",
                                   "paren-unary", "paren-update", "new-callee-call", "new-noargs-member", "optchain-paren",
                                   "paren-exp", "paren-nullish", "exp-unary-left", "nullish-mix", "new-callee-optchain",
                                   "optchain-tag", "glue-minus", "glue-plus"} ELSE {})
     [] Family = "spine" ->
          {"start-brace", "start-function", "start-async-function", "start-class", "start-let-bracket", "forof-let",
-          "forof-async", "forinit-in", "glue-minus", "glue-plus", "glue-div-regexp", "glue-regexp-keyword",
+          "forof-async", "glue-minus", "glue-plus", "glue-div-regexp", "glue-regexp-keyword",
           "glue-lt-bang", "glue-dashdash-gt", "glue-html-comment-open", "new-callee-call", "new-callee-optchain",
           "optchain-paren", "optchain-tag", "new-noargs-member", "glue-num-dot"}
     [] Family = "rand" -> {}
+    [] Family = "mix" ->
+         {"paren-comma", "paren-assign", "paren-arrow", "paren-cond", "paren-binary", "paren-unary", "forinit-in",
+          "start-brace", "start-function", "start-class", "start-let-bracket", "forof-let", "forof-async"}
     [] Family = "skel" ->
          {"paren-comma", "paren-assign", "paren-arrow", "forinit-in", "start-brace", "start-function", "start-class",
           "forof-async", "forof-let", "paren-cond", "paren-binary", "paren-unary"}
